@@ -44,6 +44,31 @@ CHECKS = {
           "A converged driver result is a fixed point and re-optimizing it returns it unchanged (proved for any pass function); every real step of the fragment satisfies the strict schema whose measure provably decreases (also in context); determinism and idempotence of the real optimize() are observed on generated programs, across 4 fresh interpreters with different PYTHONHASHSEED.",
           "That simplify_once is a deterministic function of the plan is observed, not proved; joint measure for rule families outside the fragment is open (partial).", "DESIGN.md section 6 C19"),
 }
+
+CHECKS.update({
+ "C02": C("Coq proof: partition-independence theorems (tree reductions for every partitioning and split_every, shuffle co-location, repartition/alignment plans) + exhaustive enumeration of ALL 2^(n-1) cuts of the input (known/unknown divisions, empty partitions, independent cuts of both inputs) vs pandas",
+          "Theorems are universally quantified over the list of partitions (any count, boundaries, empty ones). On the real system ~40 single-input and 13 two-input operator families are computed for every cut of a 6-row (resp. 5x4-row) table, with known and unknown divisions and with empty partitions, and compared with pandas on the concatenated input; explicit refusals (ValueError about divisions) are accepted, silent differences are not. Partial: families whose partition logic is pandas code are covered by the sweep only.",
+          "pandas is the oracle.", "DESIGN.md section 6 C02"),
+ "C08": C("Coq proof: name_collision_iff (given a collision-free fixed-width token) + reflective obligation heads_unambiguous over the class table regenerated from the source on every run; observation across interpreters / hash seeds / construction orders",
+          "The class table (357 classes: name head, arity, flags) is regenerated from /repo by introspection+ast on every run and the obligation that no two classes share a static head and arity outside the reviewed list is re-proved by computation; names of every node and all graph keys of a 75-query catalogue are compared across fresh interpreters with different PYTHONHASHSEED, permuted construction order and interleaved unrelated queries; distinct queries / single-parameter variations / different data must give distinct names.",
+          "tokenize being deterministic and collision-free is assumed (hypotheses tok_inj, tok_len).", "DESIGN.md section 6 C08"),
+ "C11": C("Coq proof (partial): output-subset selection of every shuffle implementation (staged_route / simple_route for arbitrary subsets), truthful divisions of partition selections / head / tail; differential: partitions / get_partition / to_delayed / head / tail vs the computed partitions for 12 source kinds x 8 operation chains x 9 index sets",
+          "Every offline source kind (in-memory, array, from_map, delayed, imported graph, legacy, csv, parquet x2, timeseries) x chains with broadcast operands x single/slice/reordered/repeated index sets: the selected partitions equal the corresponding partitions of the computed collection; head(n, npartitions=k) / tail(n) equal the first/last rows; shuffles, hash and broadcast joins with output subsets; sorted heads.",
+          "Known finding D22 (head/tail over a fused multi-file parquet read) is replayed and reported as KNOWN-FINDING.", "DESIGN.md section 6 C11"),
+ "C15": C("Coq proof: lru_transparent / fail_atomic (any capacity, any history) over the op-for-op model of class LRU + exhaustive-in-bound correspondence with the real class; session histories vs fresh-interpreter baselines",
+          "The LRU model equals the real class on ALL operation sequences up to length 4/5 over 3 keys and capacities 1-3; random session histories (build / optimize / compute / discard+gc / injected failures / cache eviction by 13 extra set_index queries / dataset rewrite) over a pool of 26 queries are compared observation by observation with the same query alone in a fresh interpreter.",
+          "GC timing and file-system mtime granularity are runtime behaviour (observed).", "DESIGN.md section 6 C15"),
+ "C16": C("Coq proof: state_free_table (reflective, over the class table regenerated from the source: no graph/meta/divisions method reads process-global mutable state without fallback) + cache transparency; pickle round trip into a fresh interpreter",
+          "T-GEN discovers the module-level mutable containers and which _divisions/_meta/_layer/_task/_lower methods read them; the obligation is re-proved on every run. Every catalogue query in 4 forms (built / optimized / optimized unfused / lowered) is pickled, loaded in a fresh interpreter with a different hash seed and compared (name, npartitions, divisions, schema, result).",
+          "pickle and the process boundary are observed.", "DESIGN.md section 6 C16"),
+ "C17": C("Coq proof: den_congruence (replacing a sub-plan by anything with the same value leaves every context unchanged) + soundness of optimizing the continuation; per-graph wf certificates (C09); cut-point differential",
+          "Generated programs x every intermediate variable as cut point x {persist, delayed round trip with/without divisions, legacy round trip, optimize-then-continue}: final result, schema and divisions vs the uncut run.",
+          "Cuts that turn a co-aligned operand into a foreign one are alignment queries (C02) and are excluded.", "DESIGN.md section 6 C17"),
+ "C18": C("Coq proof: dnf_sound (every filter handed to the reader keeps exactly pandas' rows, incl. missing values), combine_sound, refutation of pushing !=, fused_truthful / fusion_buckets_concat; structural correspondence of _DNF.extract_pq_filters; dataset sweep vs in-memory pandas",
+          "The DNF model equals the real class on random comparison/and/or trees; datasets (4 dtypes incl. nulls, 3 index kinds, 1-6 files) x both readers x calculate_divisions x projections x 16 filter trees x user filters x partition subsets: pushed-down plan vs the same work done in memory on the data read in full; round trip; lengths; overwrite refusal; unsorted statistics.",
+          "pyarrow's reader semantics is the assumed table arrow_keep, validated on real files.", "DESIGN.md section 6 C18"),
+})
+
 def main():
     checks = []
     for pid in ALL:
